@@ -103,6 +103,18 @@ V_HARNESS(h_decode_out)
       for (x = 0; x < _VBI3_RAW_DECODER_MAX_WAYS; x++) found |= pat0[i * _VBI3_RAW_DECODER_MAX_WAYS + x] == v;
       if (v > 0) V_ASSERT(found, "no_job_migrates_between_rows");
     }
+  /* ... and no job is lost from a row or duplicated ("try the found service first next time" is a permutation of the row): the
+   * services admitted on a scan line stay admitted there over any history of frames (C04: one record per transmitted line) */
+  for (i = 0; i < LINES; i++) {
+    unsigned n_old = 0, n_new = 0;
+    for (w = 0; w < _VBI3_RAW_DECODER_MAX_WAYS; w++) {
+      int v = pat0[i * _VBI3_RAW_DECODER_MAX_WAYS + w]; unsigned found = 0;
+      for (x = 0; x < _VBI3_RAW_DECODER_MAX_WAYS; x++) found |= PAT[i * _VBI3_RAW_DECODER_MAX_WAYS + x] == v;
+      if (v > 0) V_ASSERT(found, "no_job_dropped_from_row");
+      n_old += v > 0; n_new += PAT[i * _VBI3_RAW_DECODER_MAX_WAYS + w] > 0;
+    }
+    V_ASSERT(n_old == n_new, "row_job_count_unchanged");
+  }
   V_ASSERT(RD.pattern == PAT && RD.n_jobs <= 8, "decoder_shape_unchanged");
   if ((n == max_lines && max_lines < LINES && max_lines > 0) || LINES < 2) V_REACH("output_full");
   if (n >= 2 || LINES < 2) V_REACH("two_records");
